@@ -1,10 +1,220 @@
-//! C15 — not built yet.
-use crate::ev::Ctx;
-pub fn run(_ctx: &Ctx) -> i32 {
-    println!("INCONCLUSIVE property=C15 check not built yet");
-    2
+//! C15 — output of earlier inputs survives a later failure.
+//!
+//! Lists of 1-6 inputs of sizes from a few bytes (far below the 8 KiB stdout
+//! buffer) to megabytes, with the failing input at EVERY position and every
+//! failure kind; exit status must be 1 and stdout must start with the complete
+//! translations of all earlier inputs; without a failure exit 0 and every byte.
+
+use std::collections::BTreeMap;
+
+use serde_json::{json, Value};
+
+use crate::climodel::{self, PathKind};
+use crate::ev::{self, Acc, Ctx, Finish, Violation};
+use crate::fmts::{Fmt, ALL};
+use crate::model::preview;
+use crate::procmon::{self, Run, Scratch, StdinKind, StdoutKind};
+use crate::rng::Rng;
+
+pub const FAILURES: &[&str] = &["missing_file", "syntax_error_at_depth", "undetectable", "value_target_refuses", "second_document_for_toml", "second_use_of_stdin", "directory"];
+
+/// A translatable JSON input of roughly `size` bytes (one or more documents).
+fn good_input(size: usize, rng: &mut Rng, single_doc: bool) -> Vec<u8> {
+    if size <= 8 {
+        return b"[1]\n".to_vec();
+    }
+    let mut s = String::new();
+    if single_doc {
+        s.push_str("{\"k\":[");
+        let mut i = 0u64;
+        while s.len() + 4 < size {
+            if i > 0 {
+                s.push(',');
+            }
+            s.push_str(&(rng.next() % 100000).to_string());
+            i += 1;
+        }
+        s.push_str("]}\n");
+    } else {
+        while s.len() < size {
+            s.push_str(&format!("{{\"id\":{},\"name\":\"item {}\"}}\n", rng.next() % 1000, rng.next() % 100000));
+        }
+    }
+    s.into_bytes()
 }
-pub fn replay(_case: &serde_json::Value) -> i32 {
-    println!("replay not built yet");
-    2
+
+#[derive(Clone, Debug)]
+pub struct Case {
+    pub to: Fmt,
+    pub sizes: Vec<usize>,
+    pub fail_at: Option<usize>,
+    pub failure: &'static str,
+    pub stdout_file: bool,
+    pub seed: u64,
+}
+
+impl Case {
+    fn json(&self) -> Value {
+        json!({"to": self.to.name(), "sizes": self.sizes, "fail_at": self.fail_at, "failure": self.failure, "stdout_file": self.stdout_file, "seed": self.seed})
+    }
+    fn parse(v: &Value) -> Option<Case> {
+        let failure = FAILURES.iter().copied().chain(["none"]).find(|f| Some(*f) == v["failure"].as_str())?;
+        Some(Case { to: Fmt::parse(v["to"].as_str()?)?, sizes: v["sizes"].as_array()?.iter().filter_map(|x| x.as_u64().map(|x| x as usize)).collect(), fail_at: v["fail_at"].as_u64().map(|x| x as usize), failure, stdout_file: v["stdout_file"].as_bool()?, seed: v["seed"].as_u64()? })
+    }
+}
+
+pub fn judge(case: &Case, acc: &mut Acc) {
+    acc.evals += 1;
+    let mut rng = Rng::new(case.seed);
+    let sc = Scratch::new();
+    let mut files: BTreeMap<String, PathKind> = BTreeMap::new();
+    let mut argv: Vec<String> = vec!["-t".into(), case.to.name().into()];
+    let mut stdin: Vec<u8> = vec![];
+    let mut stdin_used = false;
+    for (i, size) in case.sizes.iter().enumerate() {
+        let failing = case.fail_at == Some(i);
+        let name = format!("f{i}.json");
+        // TOML output takes a single document: good inputs for it are single tables
+        let single = case.to == Fmt::Toml;
+        if failing {
+            match case.failure {
+                "missing_file" => {
+                    files.insert(name.clone(), PathKind::Missing);
+                    argv.push(name);
+                }
+                "directory" => {
+                    let _ = std::fs::create_dir_all(sc.path().join(&name));
+                    files.insert(name.clone(), PathKind::Directory);
+                    argv.push(name);
+                }
+                "syntax_error_at_depth" => {
+                    let mut b = good_input(*size, &mut rng, true);
+                    // damage near the end, deep inside the structure, after plenty of output was produced
+                    let at = b.len().saturating_sub(4);
+                    b.truncate(at);
+                    b.extend_from_slice(b",,]}");
+                    sc.file(&name, &b);
+                    files.insert(name.clone(), PathKind::Regular(b));
+                    argv.push(name);
+                }
+                "undetectable" => {
+                    let n2 = format!("f{i}");
+                    let b = b"\x01\x02 no known format {{{\n".to_vec();
+                    sc.file(&n2, &b);
+                    files.insert(n2.clone(), PathKind::Regular(b));
+                    argv.push(n2);
+                }
+                "value_target_refuses" => {
+                    let b: Vec<u8> = match case.to {
+                        Fmt::Toml => b"{\"a\": null}\n".to_vec(),
+                        Fmt::Json => {
+                            let n2 = format!("f{i}.yaml");
+                            let b = b"? [1, 2]\n: x\n".to_vec();
+                            sc.file(&n2, &b);
+                            files.insert(n2.clone(), PathKind::Regular(b));
+                            argv.push(n2);
+                            continue;
+                        }
+                        Fmt::Yaml => {
+                            let n2 = format!("f{i}.msgpack");
+                            let b = b"\x91\xc4\x02hi".to_vec();
+                            sc.file(&n2, &b);
+                            files.insert(n2.clone(), PathKind::Regular(b));
+                            argv.push(n2);
+                            continue;
+                        }
+                        Fmt::Msgpack => b"{\"a\": [1, 2,, ]}".to_vec(), // MessagePack refuses nothing JSON can say: fall back to a syntax error
+                    };
+                    sc.file(&name, &b);
+                    files.insert(name.clone(), PathKind::Regular(b));
+                    argv.push(name);
+                }
+                "second_document_for_toml" => {
+                    // for TOML any further document fails; for other targets this is an ordinary good input
+                    let b = b"{\"second\": 2}\n".to_vec();
+                    sc.file(&name, &b);
+                    files.insert(name.clone(), PathKind::Regular(b));
+                    argv.push(name);
+                }
+                _ => {
+                    // second use of stdin: name '-' here and once before if not yet used
+                    if !stdin_used {
+                        stdin = good_input(64, &mut rng, single);
+                        argv.push("-".into());
+                    }
+                    argv.push("-".into());
+                    stdin_used = true;
+                }
+            }
+        } else if i % 5 == 3 && !stdin_used && case.failure != "second_use_of_stdin" {
+            stdin = good_input(*size, &mut rng, single);
+            stdin_used = true;
+            argv.push("-".into());
+        } else {
+            let b = good_input(*size, &mut rng, single);
+            sc.file(&name, &b);
+            files.insert(name.clone(), PathKind::Regular(b));
+            argv.push(name);
+        }
+    }
+    let paths: Vec<String> = argv[2..].to_vec();
+    let kind = if case.stdout_file { StdoutKind::File } else { StdoutKind::Pipe };
+    let exp = climodel::emulate(None, case.to, &paths, &files, &stdin, &kind);
+    let out = procmon::run(Run { bin: &procmon::release_bin(), argv: argv.clone(), cwd: sc.path(), stdin: StdinKind::Bytes(stdin.clone()), stdout: kind, wall_secs: 120, cpu_secs: 60 });
+    acc.count(&format!("expected_exit_{}", exp.exit));
+    acc.count(&format!("failure_{}", if case.fail_at.is_some() { case.failure } else { "none" }));
+    if let Some(p) = case.fail_at {
+        acc.count(&format!("failing_position_{p}"));
+    }
+    acc.max("max_floor_bytes", exp.stdout_floor.len() as u64);
+    if exp.exit == 1 && !exp.stdout_floor.is_empty() {
+        acc.count("failures_with_earlier_output_to_preserve");
+        if exp.stdout_floor.len() < 8192 {
+            acc.count("failures_with_earlier_output_below_buffer_size");
+        }
+    }
+    if matches!(out.status, procmon::Status::Timeout | procmon::Status::SpawnError(_)) {
+        acc.inconclusive += 1;
+        return;
+    }
+    if let Err(e) = climodel::judge_run(&out, &exp) {
+        acc.violation(Violation { sig: format!("{} {}: {}", case.failure, if case.stdout_file { "file" } else { "pipe" }, ev::truncate(&crate::c02_mask(&e), 80)), case: case.json(), observed: format!("{e}; argv {:?}; status {}, {} bytes on stdout, stderr [{}]", argv, out.status.show(), out.stdout.len(), preview(&out.stderr, 160)), expected: format!("exit {} ({}), stdout starting with the {} bytes of the inputs before the failing one", exp.exit, exp.why, exp.stdout_floor.len()) });
+    }
+}
+
+pub fn run(ctx: &Ctx) -> i32 {
+    let n = ctx.size(1500, 30000);
+    let seed = ctx.seed;
+    let acc = crate::par::run(n, 4, |i, acc| {
+        let mut rng = Rng::derive(seed, 0xc15, i as u64);
+        let to = ALL[i % 4];
+        let n_in = rng.range(1, 6);
+        let big_ok = i % 40 == 0;
+        let sizes: Vec<usize> = (0..n_in).map(|_| *rng.pick(if big_ok { &[5usize, 200, 8190, 70000, 1 << 20, 4 << 20][..] } else { &[5usize, 5, 200, 200, 3000, 8150, 8200, 70000][..] })).collect();
+        // failing position: every position in turn, or none
+        let fail_at = if i % 7 == 6 { None } else { Some((i / 4) % n_in) };
+        let failure = FAILURES[(i / 28) % FAILURES.len()];
+        let case = Case { to, sizes, fail_at, failure: if fail_at.is_some() { failure } else { "none" }, stdout_file: (i / 2) % 2 == 0, seed: rng.next() };
+        acc.distinct(&format!("{:?}", case));
+        acc.sample_every(149, || case.json());
+        judge(&case, acc);
+    });
+    let rule = format!("{} invocations: 1-6 inputs with sizes from 5 B to 4 MiB (mostly below the 8 KiB stdout buffer, some straddling it, some far above), the failing input at every position in turn (or none), failure kinds {:?}, all four targets, stdout a pipe or a file, some inputs through standard input; expectation computed with the library; distinct non-trivial = distinct invocations", n, FAILURES);
+    ev::finish(
+        Finish { ctx, level: "fault_enumeration", rule, assumptions: vec!["how much of the FAILING input's own partial output reaches stdout is left open (anything between nothing and all of it)".into()], extra: serde_json::Map::new(), exhaustive: false, min_distinct: 300, must_reach: vec![("failures_with_earlier_output_below_buffer_size".into(), 100), ("expected_exit_0".into(), 50), ("failing_position_0".into(), 20), ("failing_position_3".into(), 20)] },
+        acc,
+    )
+}
+
+pub fn replay(v: &Value) -> i32 {
+    let Some(case) = Case::parse(&v["case"]) else { return 2 };
+    let mut acc = Acc::default();
+    judge(&case, &mut acc);
+    if acc.vio_count > 0 {
+        println!("VIOLATION property=C15 replay=<this file> (reproduced): {}", acc.violations[0].observed);
+        1
+    } else {
+        println!("not reproduced");
+        0
+    }
 }
